@@ -80,6 +80,29 @@ func SessAcct(sid uint32, ver, flags uint8, seq uint8, user string, acctFlags ui
 // its session's previous packet has arrived (await-total counts replies on the
 // connection; every request here is answered by exactly one reply).
 func Interleave(r *Rand, scripts []SessScript, pipeline bool) []Op {
+	if pipeline && r.Chance(25) {
+		// full pipelining: every packet of every session is written before any reply is
+		// read (the server still sees each session's packets in order)
+		var ops []Op
+		sends := 0
+		next := make([]int, len(scripts))
+		for {
+			var live []int
+			for i, s := range scripts {
+				if next[i] < len(s.Pkts) {
+					live = append(live, i)
+				}
+			}
+			if len(live) == 0 {
+				break
+			}
+			i := live[r.Intn(len(live))]
+			ops = append(ops, Op{Kind: "send", Pkt: scripts[i].Pkts[next[i]], Sess: i + 1})
+			next[i]++
+			sends++
+		}
+		return append(ops, Op{Kind: "await-total", N: sends})
+	}
 	next := make([]int, len(scripts))
 	lastSend := make([]int, len(scripts)) // 1-based send index of the session's previous packet
 	var ops []Op
@@ -107,6 +130,19 @@ func Interleave(r *Rand, scripts []SessScript, pipeline bool) []Op {
 	}
 	ops = append(ops, Op{Kind: "await-total", N: sends})
 	return ops
+}
+
+// ShiftSeq moves a session script up the sequence space: its first packet is numbered
+// base (odd) instead of 1. Scripts that would pass 255 are left alone.
+func ShiftSeq(s SessScript, base uint8) SessScript {
+	last := int(s.Pkts[len(s.Pkts)-1].Seq) + int(base) - 1
+	if base%2 == 0 || last > 255 {
+		return s
+	}
+	for _, p := range s.Pkts {
+		p.Seq += base - 1
+	}
+	return s
 }
 
 // RefPred is the model's expectation for one packet of a reference-server client.
